@@ -593,6 +593,27 @@ def b_multilang(p, ref, ml):
     ]}
 
 
+def b_slot_names(p, ref, ml):
+    """Languages and attribute names that spell a slot of the element classes (parent, bind, name, label, extra_data,
+    control ...): the nested dictionaries of a dump are keyed by them, so a dump that treats nested keys like slot names
+    loses exactly these (C16: "nothing that affects the XForm (group logic ... translations ...) is lost")."""
+    return {"survey": [
+        {"type": "text", "name": f"{p}s1", "label::parent": "P text", "label::teacher": "T text", "hint::parent": "P hint",
+         "hint::teacher": "T hint", "bind::parent": "pv", "bind::extra_data": "xd", "instance::parent": "ip",
+         "instance::name": "in", "body::label": "bl"},
+        {"type": "begin group", "name": f"{p}sg", "label::parent": "PG", "label::teacher": "TG", "bind::parent": "gp",
+         "instance::parent": "gi", "instance::children": "gc", "body::control": "bc"},
+        {"type": "integer", "name": f"{p}s2", "label::bind": "B int", "label::parent": "P int", "label::teacher": "T int",
+         "media::image::parent": "p.png", "media::image::teacher": "t.png"},
+        {"type": "end group"},
+        {"type": "begin repeat", "name": f"{p}sr", "label::parent": "PR", "label::teacher": "TR", "instance::parent": "ri",
+         "bind::type": "bt"},
+        {"type": "text", "name": f"{p}s3", "label::parent": "P3", "label::teacher": "T3", "constraint": ". != ''",
+         "constraint_message::parent": "P msg", "constraint_message::teacher": "T msg"},
+        {"type": "end repeat"},
+    ]}
+
+
 def b_overrides(p, ref, ml):
     return {"survey": [
         {"type": "text", "name": f"{p}o1", "label": "O1", "bind::type": "int"},
@@ -660,7 +681,7 @@ BUNDLES = {
     "listorder": b_list_order, "parameters": b_parameters, "orother": b_or_other, "fromfile": b_from_file,
     "external": b_external,
     "dynamic": b_dynamic, "multilang": b_multilang, "overrides": b_overrides, "metadata": b_metadata, "audit": b_audit,
-    "tablelist": b_table_list, "osm": b_osm, "loop": b_loop,
+    "tablelist": b_table_list, "osm": b_osm, "loop": b_loop, "slotnames": b_slot_names,
 }
 TOP_ONLY = {"audit", "external"}     # rows that the conventions only allow at the top level
 RARE = {"osm"}               # kept out of the pair / random families (see FINDINGS_C16.md: its dump fails outright)
